@@ -279,6 +279,41 @@ func runC12(r *Run) {
 	}
 	r.Floor("R4", "ucdao msg handlers", nH, 4)
 
+	// ---------- R6 ----------
+	r.Rule("R6", "SHAPE.ratio-amount: TransferOwnershipWithRatio hands TransferOwnership, per held denom, exactly NewCoin(denom, TruncateInt(ToLegacyDec(balance amount) × msg.Ratio)) — no alternative amount on any path ('exactly the stated amount')")
+	if fn, ok := P.FnOK("(" + ucdaoK + ".msgServer).TransferOwnershipWithRatio"); ok {
+		nCoin, okShape := 0, true
+		eachCall(fn, func(ci CallInfo) {
+			if ci.Name != "NewCoin" {
+				return
+			}
+			nCoin++
+			a := ci.Instr.Common().Args
+			amt, isC := stripValue(a[1]).(*ssa.Call)
+			if !isC || callInfo(amt).Name != "TruncateInt" {
+				okShape = false
+				return
+			}
+			mul, isM := stripValue(amt.Call.Args[0]).(*ssa.Call)
+			if !isM || callInfo(mul).Name != "Mul" || len(mul.Call.Args) != 2 {
+				okShape = false
+				return
+			}
+			x, y := mul.Call.Args[0], mul.Call.Args[1]
+			isBal := func(v ssa.Value) bool {
+				c, ok := stripValue(v).(*ssa.Call)
+				return ok && callInfo(c).Name == "ToLegacyDec" && backSlice(v).HasCall(func(g CallInfo) bool { return g.Name == "GetAccountBalances" })
+			}
+			isRatio := func(v ssa.Value) bool { return isFieldLoad(v, "MsgTransferOwnershipWithRatio", "Ratio") }
+			if !((isBal(x) && isRatio(y)) || (isBal(y) && isRatio(x))) {
+				okShape = false
+			}
+		})
+		r.Check(okShape && nCoin == 1, "R6", fnID(fn)+"#amount-is-floor-of-share", P.Pos(fnPos(fn)), "amount = TruncateInt(balance × ratio)", "the amount transferred by a ratio transfer is not on every path TruncateInt(balance × msg.Ratio): some holdings move by a different amount than the stated ratio")
+	} else {
+		r.Bad("R6", "anchor/TransferOwnershipWithRatio", "", "not found")
+	}
+
 	// ---------- R5 ----------
 	r.Rule("R5", "TABLE.pool-account-blocked: the ucdao module account is in maccPerms and (*Haqq).BlockedAddrs blocks every maccPerms account with no removal (no delete on the map, no false entry) — Fund is then the only way coins enter the pool account, which the equation total = module balance needs")
 	checkBlockedAddrs(r, "R5", "ucdao")
